@@ -72,6 +72,7 @@ OKinds == {[o |-> "raise"], [o |-> "null"], [o |-> "len", n |-> 1]}
 AlphaMultiD == AlphaOf([Query |-> {"s", "o"}, T |-> {"s"}])
 DirsMixW == {<<>>, <<Dir("include", Lit("bool", TRUE))>>, <<Dir("skip", Lit("var", "v"))>>, <<Dir("include", Lit("var", "w"))>>}
 VarValsBoolBoth == [ v |-> {Bool(TRUE), Bool(FALSE)}, w |-> {Bool(TRUE), Bool(FALSE)}, n |-> {Int(3)}, m |-> {Int(4)}, x |-> {Str("xs")}, y |-> {Int(5)} ]
+AlphaSimF == AlphaOf([Query |-> {"o", "on", "s"}, T |-> {"s", "d", "i", "sn"}])
 OKindsRaise == {[o |-> "raise"]}
 VarValsSmall == [ v |-> {Bool(TRUE), Bool(FALSE)}, w |-> {Bool(FALSE)}, n |-> {Int(3)}, m |-> {Int(4)}, x |-> {Str("xs")}, y |-> {Int(5)} ]
 AlphaSub == AlphaOf([Subscription |-> {"ev", "evs"}, T |-> {"s", "sn"}])
